@@ -79,9 +79,10 @@ def _worker(conn):
             return
         if job is None:
             return
-        name, smt2, expect, want_model = job
+        name, smt2, expect, want_model = job[:4]
+        soft = job[4] if len(job) > 4 else Z3_SOFT_MS
         try:
-            r, dt, model, reason = _solve_z3(smt2, Z3_SOFT_MS, want_model)
+            r, dt, model, reason = _solve_z3(smt2, soft, want_model)
         except Exception as e:  # parse errors etc.
             r, dt, model, reason = "unknown", 0.0, None, f"z3 error: {e}"
         conn.send(dict(name=name, result=r, backend="z3", time=dt, model=model, reason=reason))
@@ -112,8 +113,24 @@ class _Slot:
             pass
 
 
-def solve_all(jobs, procs=None, use_cvc5=True):
-    """jobs: list of (name, smt2, expect, want_model) -> list of result dicts (same order)"""
+def solve_all(jobs, procs=None, use_cvc5=True, retry=True):
+    """jobs: list of (name, smt2, expect, want_model) -> list of result dicts (same order).
+    Obligations left unknown by z3 (10 s) and cvc5 are asked again with a six times larger budget
+    and little parallelism, so that a verdict does not flip when the machine is busy."""
+    results = _solve_round(jobs, procs, use_cvc5, Z3_SOFT_MS, Z3_HARD_S)
+    if retry:
+        unk = [i for i, r in enumerate(results) if r["result"] == "unknown"]
+        if unk:
+            again = _solve_round([jobs[i] for i in unk], 4, False, Z3_SOFT_MS * 6, Z3_HARD_S * 5)
+            for i, r in zip(unk, again):
+                r["time"] += results[i]["time"]
+                if r["result"] != "unknown":
+                    r["backend"] = "z3(retry)"
+                    results[i] = r
+    return results
+
+
+def _solve_round(jobs, procs, use_cvc5, soft_ms, hard_s):
     procs = procs or int(os.environ.get("VERIF_PROCS", "0")) or min(16, os.cpu_count() or 4)
     procs = max(1, min(procs, len(jobs)))
     results = [None] * len(jobs)
@@ -129,8 +146,8 @@ def solve_all(jobs, procs=None, use_cvc5=True):
                 if s.job is None and pending:
                     i = pending.pop()
                     s.job = i
-                    s.deadline = time.time() + Z3_HARD_S
-                    s.parent.send(jobs[i])
+                    s.deadline = time.time() + hard_s
+                    s.parent.send(tuple(jobs[i][:4]) + (soft_ms,))
                     active += 1
             ready = mpc.wait([s.parent for s in slots if s.job is not None], timeout=0.25)
             now = time.time()
@@ -156,7 +173,7 @@ def solve_all(jobs, procs=None, use_cvc5=True):
                     i = s.job
                     s.kill()
                     s.spawn()
-                    results[i] = dict(name=jobs[i][0], result="unknown", backend="z3", time=Z3_HARD_S, model=None, reason="z3 hard deadline (worker killed)")
+                    results[i] = dict(name=jobs[i][0], result="unknown", backend="z3", time=hard_s, model=None, reason="z3 hard deadline (worker killed)")
                     active -= 1
     finally:
         for s in slots:
